@@ -58,6 +58,23 @@ pub fn respond(m: &Msg, b: Behave, entries: usize) -> (Vec<u8>, bool) {
         Op::ModDnReq { .. } => one(Op::ModDnResp(res)),
         Op::CompareReq { .. } => one(Op::CompareResp(res)),
         Op::ExtReq { name, .. } => one(Op::ExtResp(res, Some(name.clone()), Some(b"v".to_vec()))),
+        Op::SearchReq { .. } if paging_of(m).is_some() => {
+            // a paged search: three entries in total, `size` per page, the cookie is the offset
+            let (size, cookie) = paging_of(m).unwrap();
+            let total = 3usize;
+            let off: usize = String::from_utf8_lossy(&cookie).parse().unwrap_or(0);
+            let hi = (off + (size.max(1) as usize)).min(total);
+            let mut v = vec![];
+            if rc == 0 {
+                for j in off..hi {
+                    v.extend(Msg { id: m.id, op: Op::SearchEntry { dn: format!("{}#{}", marker, j).into_bytes(), attrs: vec![] }, controls: None }.encode());
+                }
+            }
+            let next: Vec<u8> = if rc == 0 && hi < total { hi.to_string().into_bytes() } else { vec![] };
+            let pr = Ctl { oid: b"1.2.840.113556.1.4.319".to_vec(), crit: None, val: Some(ber::encode(&ber::Tlv::seq(vec![ber::Tlv::int(0), ber::Tlv::octets(next)]))) };
+            v.extend(Msg { id: m.id, op: Op::SearchDone(res), controls: Some(vec![pr]) }.encode());
+            v
+        }
         Op::SearchReq { .. } => {
             let mut v = vec![];
             if rc == 0 {
@@ -83,6 +100,14 @@ pub fn respond(m: &Msg, b: Behave, entries: usize) -> (Vec<u8>, bool) {
         _ => vec![],
     };
     (out, false)
+}
+
+/// (size, cookie) of the request's paged-results control, if any
+pub fn paging_of(m: &Msg) -> Option<(i64, Vec<u8>)> {
+    let c = m.controls.as_ref()?.iter().find(|c| c.oid == b"1.2.840.113556.1.4.319")?;
+    let t = ber::decode_all(c.val.as_ref()?).ok()?;
+    let v = t.as_cons()?;
+    Some((ber::int_value(v.first()?.as_prim()?)? as i64, v.get(1)?.as_prim()?.to_vec()))
 }
 
 pub struct Rig {
